@@ -116,18 +116,24 @@ static void gen_members(int which, int route, int is_header)
 		member_t *m = &M[which][nm[which]++];
 		tb_t nmb = { 0 }, v = { 0 };
 		gen_name(&nmb, i);
+		int reg_aud = 0;
 		if (i == 0 && vh_below(&rng, 6) == 0) { nmb.n = 0; tb_adds(&nmb, is_header ? (vh_below(&rng, 2) ? "typ" : "alg") : (vh_below(&rng, 2) ? "iat" : "sub")); }
+		/* registered claim / header names with the structured values RFC 7519 allows (aud as a list, also of one element) */
+		if (i == 3 && vh_below(&rng, 3) == 0) { static const char *RN[] = { "aud", "iss", "jti", "kid", "crit", "cty", "jku", "x5c" }; nmb.n = 0; tb_adds(&nmb, RN[is_header ? 3 + vh_below(&rng, 5) : vh_below(&rng, 3)]); reg_aud = 1; }
 		if (i == 1 && vh_below(&rng, 5) == 0) { nmb.n = 0; nmb.p[0] = 0; }	/* the empty name: only settable through a merge */
 		if (i == 2 && vh_below(&rng, 12) == 0) { for (int q = 0; q < 40; q++) tb_adds(&nmb, "long-name-"); }
 		m->name = nmb.p;
 		m->sval = NULL;
 		m->kind = 1 + (int)vh_below(&rng, route == 0 ? 5 : 4);
+		if (reg_aud && vh_below(&rng, 2)) m->kind = 4;
 		if (!m->name[0] && m->kind < 4) m->kind = 5;	/* typed setters refuse an empty name */
 		switch (m->kind) {
 		case 1: gen_int(&v, &m->ival); break;
 		case 2: { tb_t raw = { 0 }; tb_adds(&raw, ""); gen_raw_string(&raw, vh_below(&rng, 60) == 0 ? 65536 : 40); m->sval = raw.p; tb_adds(&v, "\""); tb_adds(&v, raw.p); tb_adds(&v, "\""); break; }
 		case 3: m->ival = (long)vh_below(&rng, 2); tb_adds(&v, m->ival ? "true" : "false"); break;
-		case 4: if (vh_below(&rng, 2)) gen_object(&v, 1); else gen_array(&v, 1); break;
+		case 4: if (reg_aud && vh_below(&rng, 2)) { static const char *AV[] = { "[\"api\"]", "[\"a\",\"b\"]", "[]", "[1]", "[\"\"]", "[[\"api\"]]", "{\"0\":\"api\"}", "[null]" }; tb_adds(&v, AV[vh_below(&rng, 8)]); }
+			else if (vh_below(&rng, 2)) gen_object(&v, 1); else gen_array(&v, 1);
+			break;
 		default: { static const char *S[] = { "1.5", "null", "-2.5e-3", "0.0" }; tb_adds(&v, S[vh_below(&rng, 4)]); }
 		}
 		m->text = v.p;
